@@ -237,6 +237,31 @@ theorem precompiled_lookup_eq {Code Sem : Type} {sha1 : String → String} (hinj
   · rw [load_uncompiled_not_found hinj compilePre names hn]
     simp [sourceLoad, hn, LoadResult.map]
 
+-- ---------------------------------------------------------------------------------------------------------------
+-- 4. one loader, several environments
+-- ---------------------------------------------------------------------------------------------------------------
+
+private theorem runLoads_heap (h : List Ns) (ls : List (String × Nat)) :
+    (runLoads h ls).1 = h ++ ls.map (fun l => ⟨l.1, l.2⟩) := by
+  induction ls generalizing h with
+  | nil => simp [runLoads]
+  | cons l tl ih => obtain ⟨c, e⟩ := l; simp [runLoads, ih]
+
+private theorem runLoads_refs (h : List Ns) (ls : List (String × Nat)) :
+    (runLoads h ls).2 = List.range' h.length ls.length := by
+  induction ls generalizing h with
+  | nil => simp [runLoads]
+  | cons l tl ih => obtain ⟨c, e⟩ := l; simp [runLoads, ih, List.range'_succ]
+
+/-- however many environments load however many templates (the same name any number of times) through ONE module loader, in
+    any order: at the end every template object still refers to a namespace that holds its own code and whose `environment`
+    is the environment it was loaded for — no load disturbs an earlier one -/
+theorem shared_loader_keeps_own_environment (ls : List (String × Nat)) (i : Nat) (hi : i < ls.length) :
+    ∃ r, (runLoads [] ls).2[i]? = some r ∧ (runLoads [] ls).1[r]? = some ⟨ls[i].1, ls[i].2⟩ := by
+  refine ⟨i, ?_, ?_⟩
+  · rw [runLoads_refs]; simp [hi]
+  · rw [runLoads_heap]; simp [hi]
+
 -- non-vacuity -----------------------------------------------------------------------------------------------------
 
 def exTpl : Tpl :=
@@ -265,5 +290,10 @@ example : moduleLoad id (compileTemplates id exCompile ["a", "b", "broken"]) "b"
 -- the collision-freedom hypothesis is necessary: with a colliding digest the later template overwrites the earlier one
 example : moduleLoad (fun _ => "0") (compileTemplates (fun _ => "0") exCompile ["a", "b"]) "a" = .template "code of b" := by
   decide
+
+-- two environments (1 and 2) load template "t" through one loader, environment 1 first: with a namespace per load both keep
+-- their environment; with a namespace cached per key the first template ends up bound to environment 2
+example : (runLoads [] [("t", 1), ("t", 2)]) = ([⟨"t", 1⟩, ⟨"t", 2⟩], [0, 1]) := by decide
+example : (runLoadsCached [] [("t", 1), ("t", 2)]) = ([⟨"t", 2⟩], [0, 0]) := by decide
 
 end JinjaV.C31
